@@ -99,3 +99,42 @@ def to_lin(e, env=None, opaque=True):
     if opaque:
         return Lin.sym('<' + norm(e) + '>')
     return None
+
+
+# ------------------------------------------------------------------------------------------------- polynomials
+def to_poly(e):
+    """Expression syntax -> polynomial over names with integer coefficients {monomial (sorted tuple of names): coef}, or None.
+    Handles + - * on names and integer constants (products are distributed): (h + 1) * d == h*d + d."""
+    if isinstance(e, ast.Constant) and isinstance(e.value, int) and not isinstance(e.value, bool):
+        return {(): e.value} if e.value else {}
+    if isinstance(e, ast.Name):
+        return {(e.id,): 1}
+    if isinstance(e, ast.UnaryOp) and isinstance(e.op, (ast.USub, ast.UAdd)):
+        p = to_poly(e.operand)
+        if p is None:
+            return None
+        return {k: -v for k, v in p.items()} if isinstance(e.op, ast.USub) else p
+    if isinstance(e, ast.BinOp) and isinstance(e.op, (ast.Add, ast.Sub, ast.Mult)):
+        a, b = to_poly(e.left), to_poly(e.right)
+        if a is None or b is None:
+            return None
+        out = {}
+        if isinstance(e.op, ast.Mult):
+            for ka, va in a.items():
+                for kb, vb in b.items():
+                    k = tuple(sorted(ka + kb))
+                    out[k] = out.get(k, 0) + va * vb
+        else:
+            sg = 1 if isinstance(e.op, ast.Add) else -1
+            out = dict(a)
+            for kb, vb in b.items():
+                out[kb] = out.get(kb, 0) + sg * vb
+        return {k: v for k, v in out.items() if v}
+    return None
+
+
+def poly_sub(a, b):
+    out = dict(a)
+    for k, v in b.items():
+        out[k] = out.get(k, 0) - v
+    return {k: v for k, v in out.items() if v}
